@@ -1,25 +1,26 @@
 #!/usr/bin/env python3
-"""tools/runmut.py <seeded-dir> [property ...]: apply the change to /repo, run the checks, undo it straight away."""
-import json, os, subprocess, sys, time
+"""tools/runmut.py <seeded-dir> [property ...]: apply the change in a scratch worktree of /repo (removed afterwards)
+and run the checks against it (VERIF_REPO); /repo itself stays untouched."""
+import json, os, subprocess, sys, time, shutil
 def main():
-    d = sys.argv[1].rstrip("/")
+    d = os.path.abspath(sys.argv[1].rstrip("/"))
     meta = json.load(open(os.path.join(d, "meta.json")))
     props = sys.argv[2:] or [meta.get("property", os.path.basename(d)[:3])]
     tier = os.environ.get("VERIF_TIER", "quick")
-    assert subprocess.run("git -C /repo status --porcelain", shell=True, capture_output=True, text=True).stdout.strip() == "", "/repo not clean"
-    rc = subprocess.run("git -C /repo apply %s/patch.diff || git -C /repo apply --3way %s/patch.diff" % (d, d), shell=True).returncode
-    if rc != 0:
-        print("APPLY FAILED", d); return 3
-    out = {}
+    wt = "/tmp/mutwt-%s-%d" % (os.path.basename(d), os.getpid())
+    subprocess.run("git -C /repo worktree add -q --detach %s HEAD" % wt, shell=True, check=True)
     try:
+        rc = subprocess.run("git -C %s apply %s/patch.diff" % (wt, d), shell=True).returncode
+        if rc != 0:
+            print("APPLY FAILED", d); return 3
         for p in props:
             t0 = time.time()
-            r = subprocess.run(["/verif/check", p, "--tier", tier], capture_output=True, text=True, cwd="/verif")
-            lines = [l for l in r.stdout.splitlines() if l.startswith(("VIOLATION", "KNOWN", "OK", "INCONCLUSIVE"))]
-            out[p] = (r.returncode, lines[:3], round(time.time() - t0))
-            print("%s on %s: rc=%d %s (%ds)" % (os.path.basename(d), p, r.returncode, lines[:2], time.time() - t0))
+            r = subprocess.run(["/verif/check", p, "--tier", tier], capture_output=True, text=True, cwd="/verif",
+                               env=dict(os.environ, VERIF_REPO=wt, VERIF_EVID="/tmp/mut-evid"))
+            lines = [l for l in r.stdout.splitlines() if l.startswith(("VIOLATION", "KNOWN", "OK", "INCONCLUSIVE", "DIVERGENCE"))]
+            print("%s on %s: rc=%d %s (%ds)" % (os.path.basename(d), p, r.returncode, [l[:160] for l in lines[:2]], time.time() - t0), flush=True)
     finally:
-        subprocess.run("git -C /repo checkout -q -- . && git -C /repo reset -q", shell=True)
-        subprocess.run("git -C /repo status --porcelain", shell=True)
+        subprocess.run("git -C /repo worktree remove --force %s" % wt, shell=True)
+        shutil.rmtree(wt, ignore_errors=True)
     return 0
 sys.exit(main())
